@@ -19,6 +19,8 @@ type mixParams struct {
 	costZeroPct  int // cost 0 => Cost function
 	sleepMax     int64
 	rangeStopPct int
+	heavyPct     int   // percent of Sets that carry one of heavyCosts
+	heavyCosts   []int64
 }
 
 func (g *gen) mixed(p mixParams) [][]Op {
@@ -58,6 +60,9 @@ func (g *gen) mixed(p mixParams) [][]Op {
 				}
 				if p.costZeroPct > 0 && g.pct(p.costZeroPct) {
 					op.Cost = 0
+				}
+				if p.heavyPct > 0 && g.pct(p.heavyPct) {
+					op.Cost = p.heavyCosts[g.n(len(p.heavyCosts))]
 				}
 				if p.ttlPct > 0 && g.pct(p.ttlPct) {
 					op.TTL = p.ttls[g.n(len(p.ttls))]
